@@ -28,7 +28,7 @@ def fast_path(rep, prog, rule):
     rep.rule(rule, "in resize_typed every resampler call is dominated by the failure edge of "
              "copy_image(..).is_ok(), and the success edge reaches the return without any other "
              "call that receives the destination")
-    f = prog.fn_by_name("resizer::Resizer::resize_typed")
+    f = flow.pipeline_body(prog)
     rep.touch(f)
     sym = Sym(f)
     dom = Dom(f)
